@@ -1,4 +1,5 @@
 import KcpVerif.Props.C11
+import KcpVerif.Lemmas.SessInClose
 /-!
 Listener-level lemmas for the composition `C11_isolation` (core Lean only, ANY session state `σ`):
 
@@ -605,5 +606,75 @@ theorem rel_run {a : String} {id : Nat} (evs : List (LEv σ)) : ∀ l1 l2 : List
     | false =>
       rw [List.filter_cons_of_neg (by simp [hc])]
       exact ih _ _ (rel_drop h e hc)
+
+/-! ### `Listener.Close` -/
+
+theorem WF_closeAll' (w : World σ) (ids : List Nat) : ∀ l : Listener σ, WF l → WF2 l →
+    WF (SessIn.closeAll w l ids) ∧ WF2 (SessIn.closeAll w l ids) := by
+  induction ids with
+  | nil => intro l h h2; exact ⟨h, h2⟩
+  | cons id rest ih => intro l h h2; exact ih _ (WF_closeSess w l id h) (WF2_closeSess w l id h2)
+
+/-- the mapping of a session outside `ids` is not touched by `closeAll` -/
+theorem closeAll_lookup (w : World σ) (ids : List Nat) : ∀ (l : Listener σ), WF2 l → ∀ (id : Nat) (a : String),
+    id ∉ ids → (lookup (SessIn.closeAll w l ids).table a = some id ↔ lookup l.table a = some id) := by
+  induction ids with
+  | nil => intro l _ id a _; exact Iff.rfl
+  | cons i rest ih =>
+    intro l h2 id a hid
+    have h1 : i ≠ id := fun e => hid (by rw [← e]; exact List.mem_cons_self ..)
+    have h3 : id ∉ rest := fun e => hid (List.mem_cons_of_mem _ e)
+    show lookup (SessIn.closeAll w (closeSess w l i) rest).table a = some id ↔ _
+    exact (ih _ (WF2_closeSess w l i h2) id a h3).trans (closeSess_table_other w l i id a h2 h1)
+
+/-- a closed session object stays closed -/
+theorem closeSess_keeps_closed (w : World σ) (l : Listener σ) (i j : Nat) (o : Sess σ)
+    (ho : l.objs[j]? = some o) (hc : o.closed = true) :
+    ∃ o', (closeSess w l i).objs[j]? = some o' ∧ o'.closed = true := by
+  have hlt : j < (closeSess w l i).objs.length := by rw [C11_closeSess_length]; exact lt_of_get ho
+  refine ⟨(closeSess w l i).objs[j], List.getElem?_eq_getElem hlt, ?_⟩
+  rcases closeSess_obj w l i j _ (List.getElem?_eq_getElem hlt) with h1 | ⟨_, o2, _, _, e⟩
+  · rw [ho] at h1; cases h1; exact hc
+  · rw [e]
+
+theorem closeAll_keeps_closed (w : World σ) (ids : List Nat) : ∀ (l : Listener σ) (j : Nat) (o : Sess σ),
+    l.objs[j]? = some o → o.closed = true → ∃ o', (SessIn.closeAll w l ids).objs[j]? = some o' ∧ o'.closed = true := by
+  induction ids with
+  | nil => intro l j o ho hc; exact ⟨o, ho, hc⟩
+  | cons i rest ih =>
+    intro l j o ho hc
+    obtain ⟨o1, h1, c1⟩ := closeSess_keeps_closed w l i j o ho hc
+    exact ih _ j o1 h1 c1
+
+/-- every session named in `ids` is closed afterwards -/
+theorem closeAll_closed (w : World σ) (ids : List Nat) : ∀ (l : Listener σ) (j : Nat), j ∈ ids → j < l.objs.length →
+    ∃ o', (SessIn.closeAll w l ids).objs[j]? = some o' ∧ o'.closed = true := by
+  induction ids with
+  | nil => intro l j hj; cases hj
+  | cons i rest ih =>
+    intro l j hj hlt
+    show ∃ o', (SessIn.closeAll w (closeSess w l i) rest).objs[j]? = some o' ∧ _
+    have hlt' : j < (closeSess w l i).objs.length := by rw [C11_closeSess_length]; exact hlt
+    by_cases hji : j = i
+    · subst hji
+      -- closed by this very step (or before)
+      have : ∃ o1, (closeSess w l j).objs[j]? = some o1 ∧ o1.closed = true := by
+        have ho : l.objs[j]? = some l.objs[j] := List.getElem?_eq_getElem hlt
+        generalize l.objs[j] = o at ho
+        cases hc : o.closed with
+        | true =>
+          have e : closeSess w l j = l := by unfold closeSess; rw [ho]; simp only [hc, if_true]
+          rw [e]; exact ⟨o, ho, hc⟩
+        | false =>
+          rw [C11_closeSess_open w l j o ho hc]
+          exact ⟨{ o with st := w.closeFx o.st, closed := true },
+            by simp only [getElem?_modifyAt, if_true, ho, Option.map_some], rfl⟩
+      obtain ⟨o1, h1, c1⟩ := this
+      exact closeAll_keeps_closed w rest _ j o1 h1 c1
+    · have hj' : j ∈ rest := by
+        rcases List.mem_cons.mp hj with h | h
+        · exact absurd h hji
+        · exact h
+      exact ih _ j hj' hlt'
 
 end KcpVerif.C11Iso
